@@ -21,11 +21,11 @@ let run_mll () =
     | [] -> ()
     | ["open"; oc] ->
         let oc = (match oc with "cgiofail" -> OCgioFail | "latefail" -> OLateFail | _ -> OSuccess) in
-        let ((m1, l1), r) = mh_step !m !live (MOpen oc) in
+        let ((m1, l1), r) = mh_step MCur !m !live (MOpen oc) in
         m := m1; live := l1;
         (match r with Some fn -> Printf.printf "open 0 %d%s\n" (n2i fn) (tail ()) | None -> Printf.printf "open 1 0%s\n" (tail ()))
     | ["close"; fn] ->
-        let ((m1, l1), r) = mh_step !m !live (MClose (i2n (max 0 (int_of_string fn)), true)) in
+        let ((m1, l1), r) = mh_step MCur !m !live (MClose (i2n (max 0 (int_of_string fn)), true)) in
         m := m1; live := l1; Printf.printf "close %d%s\n" (if r <> None then 0 else 1) (tail ())
     | ["get"; fn] ->
         let r = if int_of_string fn < 0 then None else cgi_get_file !m (i2n (int_of_string fn)) in
